@@ -199,7 +199,10 @@ CompEls(T, n, cname, mk, rp) ==
                     LET i == CHOOSE j \in 1..Len(m.ports) : Path(nsp, cname \o "-" \o m.ports[j]) = x
                     IN  E(CP, m.ptype, cname \o "-" \o m.ports[i], nsp, Stitch,
                           [Capacities |-> IF m.bw = 0 THEN [unit |-> "i:1"] ELSE [unit |-> "i:1", bw |-> IntTok(m.bw)],
-                           Labels |-> [local_name |-> "s:" \o m.ports[i]]])]
+                           \* substrate models hand in one Labels object per port (the recorder uses mac 00:..:0<i>)
+                           Labels |-> IF Flavour = "substrate"
+                                      THEN [local_name |-> "s:" \o m.ports[i], mac |-> "s:00:00:00:00:00:0" \o ToString(i)]
+                                      ELSE [local_name |-> "s:" \o m.ports[i]]])]
     IN  Over(Over(comp, ns), ifs)
 
 AddComponent(T, n, cname, mk) ==
@@ -281,13 +284,14 @@ Connect(T, s, i) ==
     ELSE IF ConnectBlocked(T, s, i) # "" THEN Fail(T, ConnectBlocked(T, s, i))
     ELSE Ok(ConnectEls(T, s, i))
 
-\* disconnect_interface: removes the single peer of the node interface (and the link); nothing to do without a peer
+\* disconnect_interface: removes the single service-side peer of the node interface (and the link);
+\* nothing to do without a peer
 Disconnect(T, s, i) ==
     IF ~Has(T, s) THEN Fail(T, "NoSuchElement")
     ELSE IF ~Has(T, i) THEN Fail(T, QErr)
-    ELSE IF Peers(T, i) = {} THEN Ok(T)
-    ELSE IF Cardinality(Peers(T, i)) > 1 THEN Fail(T, TErr)
-    ELSE Ok(RemoveCP(T, CHOOSE q \in Peers(T, i) : TRUE, TRUE))
+    ELSE IF SPPeers(T, i) = {} THEN Ok(T)
+    ELSE IF Cardinality(SPPeers(T, i)) > 1 THEN Fail(T, TErr)
+    ELSE Ok(RemoveCP(T, CHOOSE q \in SPPeers(T, i) : TRUE, TRUE))
 
 \* ---- facility / switch (composite builders)
 FacilityEls(name, site, rp) ==
@@ -516,6 +520,12 @@ Deviation(T, o, out, O) ==
                 /\ T.el[OwnerNode(T, o.ifs[k])].name \o "-" \o T.el[o.ifs[k]].name
                        = T.el[OwnerNode(T, o.ifs[j])].name \o "-" \o T.el[o.ifs[j]].name
             -> "ServicePortNameCollision"
+      [] o.op = "Validate" /\ out = "ok" /\ Valid(T) /\ O # Inferred(T)
+         /\ DOMAIN O.el = DOMAIN T.el /\ O.conn = T.conn
+         /\ \A p \in DOMAIN T.el : O.el[p] = Inferred(T).el[p]
+                \/ (O.el[p] = T.el[p] /\ Cls(T, p) = NS /\ \E q \in Services(T) \ {p} : T.el[q].name = T.el[p].name)
+            -> "ServicesViewKeyedByName"                  \* topology.network_services is keyed by name: same-named
+                                                         \* services of different nodes hide each other (and are not validated)
       [] OTHER -> ""
 
 \* a validation that fails may already have recorded the inferred site on services it had accepted before it met
